@@ -109,6 +109,14 @@ def global_plan(scn, info, seed):
   return rules
 
 
+def has_f15(scn, codes):
+  """Known finding F15 (C13 / C06): dynamic-range DEPTHWISE_CONV_2D with tensor-wise weights is accepted although the runtime's
+  hybrid kernel reads per-channel scales; its output is garbage that differs from run to run, so executions of such a model
+  cannot be compared with each other. Checks that compare interpreter outputs leave these models out."""
+  return any(code == "DEPTHWISE_CONV_2D" and md["m"] == "DRQ" and str(md["w"]).rstrip("a").endswith("t")
+             for codes_s, modes_s in zip(codes, scn["mode"]) for code, md in zip(codes_s, modes_s))
+
+
 def apply_recipe(q, scn, info, seed=0):
   """One rule per quantised operator; regex = the unique name of its first output tensor.
 
